@@ -29,6 +29,10 @@ func c14Rules(tier string) []Rule {
 	rules := c14RulesBase(tier)
 	rules = append(rules, errClassifier("C14.ERRC1", "InsufficientCapacityError", false)...)
 	rules = append(rules, errClassifier("C14.ERRC2", "NodeClassNotReadyError", false)...)
+	// the labels / annotations resolved at launch are persisted before Launched=True is: a requeue that already sees
+	// Launched skips Launch and would never write them again (the NodeClaim then looks drifted from its NodePool)
+	rules = append(rules, NOREACH{ID: "C14.NR1", Fn: "(*life.Controller).Reconcile", From: `^call iface:\(cr/client\.SubResourceWriter\)\.Patch\(iface:\(cr/client\.StatusClient\)\.Status\(\$0\.kubeClient\), `,
+		Sink: `^call iface:\(cr/client\.Writer\)\.Patch\(\$0\.kubeClient, `, Note: "no metadata patch after the status patch"})
 	return rules
 }
 
